@@ -132,6 +132,65 @@ def judge(text, container):
     return None
 
 
+# -- byte input whose encoding is changed by a late <meta> (the parse restarts): positions of the final pass -----------
+
+def restart_cases():
+    out = []
+    for k in range(34, 61, 2):                       # filler of more than 1024 bytes: the prescan must miss the declaration
+        filler = "<!--" + ("x" * 30 + "\n") * k + "-->"
+        for tail in ("<p></b>\n</i>", "<p>\u00e9<b>\n", "</i>", "\r\n</p>\r<b>x"):
+            for chunk in (None, 7, 64, 1000):
+                out.append((filler + "<meta charset=utf-8>" + tail, chunk))
+    return out
+
+
+def judge_restart(text, chunk):
+    import html5lib
+    from html5lib import _inputstream, html5parser
+    data = text.encode("utf-8")
+    old = _inputstream.HTMLUnicodeInputStream._defaultChunkSize
+    if chunk:
+        _inputstream.HTMLUnicodeInputStream._defaultChunkSize = chunk
+    try:
+        p = html5lib.HTMLParser(tw.builder("etree"))
+        p.parse(data, useChardet=False)
+        errors = list(p.errors)
+        q = html5lib.HTMLParser(tw.builder("etree"))
+        q.parse(text)
+        ref_errors = list(q.errors)
+        s = html5lib.HTMLParser(tw.builder("etree"), strict=True)
+        try:
+            s.parse(data, useChardet=False)
+            raised = None
+        except html5parser.ParseError as e:
+            raised = str(e)
+        except Exception as e:
+            return ("strict mode raised %s" % type(e).__name__, "restart:strict-other", "ParseError", type(e).__name__)
+    finally:
+        _inputstream.HTMLUnicodeInputStream._defaultChunkSize = old
+    if p.documentEncoding != "utf-8":
+        return ("harness: the late <meta> did not restart the parse", "restart:harness", "utf-8", p.documentEncoding)
+    lines = text.replace("\r\n", "\n").replace("\r", "\n").split("\n")
+    for (line, col), code, dv in errors:
+        if not (1 <= line <= len(lines) and 0 <= col <= len(lines[line - 1])):
+            return ("after an encoding restart error %s is reported at %r, outside the input (%d lines)" % (code, (line, col), len(lines)),
+                    "restart:position", "1<=line<=%d" % len(lines), [line, col])
+    if [(e[0], e[1]) for e in errors] != [(e[0], e[1]) for e in ref_errors]:
+        return ("after an encoding restart the recorded errors differ from those of the same characters parsed as str",
+                "restart:differs-from-str", [[list(e[0]), e[1]] for e in ref_errors][:5], [[list(e[0]), e[1]] for e in errors][:5])
+    if bool(errors) != (raised is not None):
+        return ("strict mode and the error list disagree after an encoding restart", "restart:strict-iff", bool(errors), raised)
+    return None
+
+
+def _restart_shard(cases):
+    out = []
+    for text, chunk in cases:
+        j = judge_restart(text, chunk)
+        out.append(None if j is None else engine.Violation(H, {"kind": "restart", "chunk": chunk, "container": None}, text, j[2], j[3], j[0], j[1]))
+    return out
+
+
 def step(ctx, word):
     kind, theme, container, seed = ctx
     if kind == "tok":
@@ -156,6 +215,9 @@ def step(ctx, word):
 
 
 def execute(config, case):
+    if config.get("kind") == "restart":
+        j = judge_restart(case, config.get("chunk"))
+        return None if j is None else engine.Violation(H, config, case, j[2], j[3], j[0], j[1])
     j = judge(case, config.get("container"))
     if j is None:
         return None
@@ -204,6 +266,12 @@ def run(run):
         for v in res.violations:
             if v.diff_class not in classes or len(v.case) < len(classes[v.diff_class].case):
                 classes[v.diff_class] = v
+    rc = restart_cases()
+    for vs in engine.pmap(_restart_shard, [rc[i:i + 16] for i in range(0, len(rc), 16)], chunksize=1):
+        for v in vs:
+            run.add("restart_parses")
+            if v is not None:
+                classes.setdefault(v.diff_class, v)
     voids = void_documents()
     run.set("void_element_documents", len(voids))
     for doc in CONFORMING + voids:
